@@ -131,6 +131,33 @@ def build_ops():
     def op_tree_flatten_free():
         isinstance(FNode(Z(2), FNode(Z(2))), PT)
 
+    @jaxtyped(typechecker=typechecked)
+    def flatten_helper(c: tuple) -> tuple:
+        return c
+
+    @jtu.register_pytree_node_class
+    class HNode:
+        def __init__(self, *c):
+            self.c = c
+
+        def tree_flatten(self):
+            F.hit()
+            return flatten_helper(self.c), None          # a decorated call (its own context) in the middle of a flatten
+
+        @classmethod
+        def tree_unflatten(cls, aux, c):
+            return cls(*c)
+
+    def op_tree_flatten_calls_decorated():
+        with jaxtyped("context"):
+            isinstance((Z(2), HNode(Z(2), Z(2))), PT)
+            isinstance(Z(2), Float[np.ndarray, "a"])
+
+    def op_tree_flatten_calls_decorated_nested():
+        with jaxtyped("context"):
+            with jaxtyped("context"):
+                isinstance(HNode(Z(2), HNode(Z(2))), PT)
+
     def op_tree_unsortable():
         isinstance({1: Z(2), "a": Z(2)}, PT)
 
@@ -234,6 +261,8 @@ def build_ops():
         import jaxtyping
         from jaxtyping import AnnotationError
         out = {"arr": [], "pt": [], "direct": {}}
+        # what the history left behind, observed BEFORE the probes themselves open contexts or flatten trees
+        left = {"flags": R.flags(), "depth": R.stack_depth()}
         E = {"single": {}, "variadic": {}}
 
         def arr(tag, ann, toks, obj, objdesc, pre=None, mid=None):
@@ -316,6 +345,13 @@ def build_ops():
         @jaxtyped(typechecker=None)
         def call_nochecker():
             _body()
+        # a function decorated TWICE (by hand on top of the import hook's decorator): still one call, one context of its own
+        def _twice(x: Float[np.ndarray, "a"], y: Float[np.ndarray, "*v"]) -> Float[np.ndarray, "a"]:
+            return x
+        call_twice = jaxtyped(typechecker=beartype)(jaxtyped(typechecker=typechecked)(_twice))
+        call_twice_same = jaxtyped(typechecker=beartype)(jaxtyped(typechecker=beartype)(_twice))
+        mids.update({"call_decorated_twice": (bind_bv, ("call", lambda: call_twice(Z(9), Z(5, 5)))),
+                     "call_decorated_twice_same_checker": (bind_bv, ("call", lambda: call_twice_same(Z(9), Z(5, 5))))})
         mids.update({"call_noparams": (bind_bv, ("call", call_noparams)),
                      "call_unannotated": (bind_bv, ("call", lambda: call_unannotated(1))),
                      "call_defaults_only": (bind_bv, ("call", call_defaults_only)),
@@ -362,7 +398,7 @@ def build_ops():
         with contextlib.redirect_stdout(buf):
             jaxtyping.print_bindings()
         out["direct"] = {"toplevel_bindings": buf.getvalue().strip(), "depth": R.stack_depth(), "flags": R.flags(),
-                         "hooked_nested": hooked_nested_probe()}
+                         "hooked_nested": hooked_nested_probe(), "left_behind": left}
         return out
 
     return ops, F, probes
@@ -494,7 +530,9 @@ def main(tier):
                 if d.get("hooked_nested", "ok:1/TCE") != "ok:1/TCE":
                     chk.disagree(f"C12:history:{hkey(r['history'])}:probe=hooked_nested_def", {"history": r["history"],
                                  "observed": r["probes"]["direct"], "expected": "inner(1) returns 1, inner('not an int') raises TypeCheckError"})
-                if d["toplevel_bindings"] or d["depth"] not in (0, None) or d["flags"].get("flatten") or d["flags"].get("label"):
+                lb = d.get("left_behind", {"flags": {}, "depth": 0})
+                if (d["toplevel_bindings"] or d["depth"] not in (0, None) or d["flags"].get("flatten") or d["flags"].get("label")
+                        or lb["flags"].get("flatten") or lb["flags"].get("label") or lb["depth"] not in (0, None)):
                     chk.disagree(f"C12:history:{hkey(r['history'])}:probe=quiescence", {"history": r["history"], "observed": d})
         def split(rows, stem):
             fs = []
